@@ -116,7 +116,23 @@ thread_local! {
 }
 
 /// The library runs in this process: a panic inside it is a failure of the case, not of the harness.
+/// An RSA key written by another tool with a public exponent other than 65537 (load forms rsa-e3, rsa-e17, rsa-e4294967297)
+fn foreign_rsa_pem(key_type: &str, load_form: &str) -> Option<String> {
+	let e: u64 = load_form.strip_prefix("rsa-e")?.parse().ok()?;
+	let bits = if key_type == "rsa4096" { 4096 } else { 2048 };
+	let be = openssl::bn::BigNum::from_slice(&e.to_be_bytes()).ok()?;
+	let rsa = openssl::rsa::Rsa::generate_with_e(bits, &be).ok()?;
+	let k = openssl::pkey::PKey::from_rsa(rsa).ok()?;
+	String::from_utf8(k.private_key_to_pem_pkcs8().ok()?).ok()
+}
+
 pub fn exec(case: &Case) -> Outcome {
+	if case.key_pem.is_none() && case.load_form.starts_with("rsa-e") {
+		let Some(pem) = foreign_rsa_pem(&case.key_type, &case.load_form) else { return Outcome::Infra("foreign RSA key generation".into()) };
+		let mut c = case.clone();
+		c.key_pem = Some(pem);
+		return exec(&c);
+	}
 	CURRENT_KEY.with(|k| *k.borrow_mut() = case.key_pem.clone());
 	match std::panic::catch_unwind(|| exec_inner(case)) {
 		Ok(o) => o,
@@ -137,7 +153,7 @@ fn exec_inner(case: &Case) -> Outcome {
 	let kp = match &case.key_pem {
 		Some(p) => match KeyPair::from_pem(p.as_bytes()) {
 			Ok(k) => k,
-			Err(e) => return Outcome::fail("C15:load-stored-key", format!("from_pem failed on a key this library wrote: {e}")),
+			Err(e) => return Outcome::fail("C15:load-stored-key", format!("from_pem failed on a key this library or the harness wrote (load form {}): {e}", case.load_form)),
 		},
 		None => match gen_keypair(kt) {
 			Ok(k) => k,
@@ -167,7 +183,7 @@ fn exec_inner(case: &Case) -> Outcome {
 		Err(e) => return Outcome::Infra(format!("reference SPKI parse: {e}")),
 	};
 	let mut classes = vec![format!("type={}", case.key_type), format!("load={}", case.load_form)];
-	let mut nontrivial = false;
+	let mut nontrivial = case.load_form.starts_with("rsa-e");
 
 	// 1. public JWK
 	let got = match kp.jwk_public_key() {
@@ -343,6 +359,8 @@ fn hex(b: &[u8]) -> String {
 fn strat(kt: &'static str) -> impl Strategy<Value = Case> {
 	let forms = if kt.starts_with("ecdsa") {
 		prop_oneof![6 => Just("pkcs8"), 2 => Just("traditional"), 1 => Just("sec1-compressed"), 1 => Just("sec1-hybrid"), 1 => Just("pkcs8-compressed"), 1 => Just("pkcs8-hybrid"), 1 => Just("pkcs8-uncompressed")].boxed()
+	} else if kt.starts_with("rsa") {
+		prop_oneof![6 => Just("pkcs8"), 2 => Just("traditional"), 1 => Just("rsa-e3"), 1 => Just("rsa-e17"), 1 => Just("rsa-e4294967297")].boxed()
 	} else {
 		prop_oneof![3 => Just("pkcs8"), 1 => Just("traditional")].boxed()
 	};
@@ -355,7 +373,7 @@ fn strat(kt: &'static str) -> impl Strategy<Value = Case> {
 }
 
 pub fn run(ctx: &Ctx, rep: &mut Report) {
-	rep.rule = "case = (key type, random message 0..511 B, load form); a fresh key of that type is generated by the library under test for every case (OpenSSL RNG; failing cases are stored with the concrete key). Oracle: JWK members == recomputation from the SPKI DER read with an own DER walker, no unexpected/private members, thumbprint input == RFC 7638 canonical text, signature of exact JWS length verifying under OpenSSL and ring with a key rebuilt from the JWK members, every other algorithm rejected, PEM/DER/traditional round trips preserve type, SPKI and private DER; for EC keys, in 5 of 12 cases the same key is also loaded from a hand-built SEC1 or PKCS#8 file with the public point in compressed, hybrid or uncompressed form and must give the same JWK, thumbprint input and verifying signatures. Non-trivial = a coordinate, OKP key or signature component (r, s, RSA s) whose big-endian form starts with a zero octet; distinct = distinct (type, message, load form).".into();
+	rep.rule = "case = (key type, random message 0..511 B, load form); a fresh key of that type is generated by the library under test for every case (OpenSSL RNG; failing cases are stored with the concrete key). Oracle: JWK members == recomputation from the SPKI DER read with an own DER walker, no unexpected/private members, thumbprint input == RFC 7638 canonical text, signature of exact JWS length verifying under OpenSSL and ring with a key rebuilt from the JWK members, every other algorithm rejected, PEM/DER/traditional round trips preserve type, SPKI and private DER; for EC keys, in 5 of 12 cases the same key is also loaded from a hand-built SEC1 or PKCS#8 file with the public point in compressed, hybrid or uncompressed form and must give the same JWK, thumbprint input and verifying signatures; 3 of 11 RSA cases use a key generated by the harness with public exponent 3, 17 or 2^32+1 (JWK e must be the minimal big-endian encoding). Non-trivial = a coordinate, OKP key or signature component (r, s, RSA s) whose big-endian form starts with a zero octet; distinct = distinct (type, message, load form).".into();
 	rep.assume("OpenSSL's SPKI encoding of the public key and OpenSSL's/ring's verification primitives are correct");
 	run_replays::<Case>(ctx, rep, "lib", &exec);
 	if ctx.replay.is_some() {
